@@ -556,6 +556,21 @@ func (h *vC27History) run(nOps, invalidBias int) (applied map[string]int, err er
 		op, signer, payee, intent := h.choose(invalidBias)
 		ts := h.nextTimestamp()
 		allowed, reason := h.model.allowed(op, signer, payee)
+		// an operation the lifecycle forbids stays forbidden when it is stamped a little earlier than the latest
+		// record (inside the 12 h the store looks ahead): between the two latest records of the history
+		if n := len(h.model.hist); !allowed && n >= 2 && h.rng.Intn(3) == 0 {
+			last, prev := h.model.hist[n-1].Ts, h.model.hist[n-2].Ts
+			const lookahead = uint64(12 * 3600 * 1e9)
+			if last > prev+1 {
+				lo := prev + 1
+				if last-lo >= lookahead {
+					lo = last - lookahead + 1
+				}
+				ts = lo + uint64(h.rng.Int63n(int64(last-lo)))
+				intent += "+stamped-before-the-latest-record"
+				r.Count("forbidden_operations_stamped_before_the_latest_record", 1)
+			}
+		}
 		tx := h.buildTx(op, signer, payee)
 		parsed, perr := verifgen.Reparse(tx)
 		if perr != nil {
@@ -577,7 +592,7 @@ func (h *vC27History) run(nOps, invalidBias int) (applied map[string]int, err er
 		panicked, pv, stack := verifkit.Guard(func() { werr = store.WriteSnapshot(snap, []crypto.Hash{h.sim.Chain}) })
 		r.Eval()
 		r.Count("op_"+op, 1)
-		step := map[string]any{"op": op, "signer": signer.String()[:12], "payee": payee.String()[:12], "ts_delta": ts - h.sim.Clock,
+		step := map[string]any{"op": op, "signer": signer.String()[:12], "payee": payee.String()[:12], "ts_delta": int64(ts) - int64(h.sim.Clock),
 			"generator_intent": intent, "model_allows": allowed}
 		if !allowed {
 			step["model_reason"] = reason
@@ -615,7 +630,9 @@ func (h *vC27History) run(nOps, invalidBias int) (applied map[string]int, err er
 		default:
 			step["store"] = "applied"
 			h.sim.Topo++
-			h.sim.Clock = ts
+			if ts > h.sim.Clock {
+				h.sim.Clock = ts
+			}
 			h.next = common.Input{Hash: hash, Index: 1}
 			if !allowed {
 				r.Violation("C27|"+op+"|applied|"+reason,
@@ -694,7 +711,7 @@ func TestVerif_C27(t *testing.T) {
 		"transaction (keys in Extra, typed output) finalized through LockUTXOs+WriteTransaction+WriteSnapshot at strictly increasing snapshot times (1 ns .. 40 days apart); " +
 		"after every operation ReadAllNodes is compared with a reference state machine written from the statement, plus lifecycle invariants on the reported history; " +
 		"non-trivial = distinct operation transactions that were applied, or refused and verified to leave the history unchanged")
-	r.Assume("membership operations reach the store at strictly increasing snapshot timestamps, one operation per snapshot (what C28 guarantees)")
+	r.Assume("operations the lifecycle allows reach the store at strictly increasing snapshot timestamps, one operation per snapshot (what C28 guarantees); forbidden operations are also offered with a timestamp between the two latest records, inside the store's 12 h look-ahead")
 	r.Assume("operation transactions are structurally well-formed (64/96-byte Extra, typed first output) but are not run through common.Validate: the durable checks of storage/badger_node.go are the code under observation")
 	r.Assume("the statement forbids transitions ('only'); operations the store refuses although the statement would allow them (removal while a pledge is pending) are counted, not flagged")
 
